@@ -39,6 +39,8 @@ def jobs(tier):
             if c["motifs"] and max(len(x) for x in c["motifs"]) > k:
                 continue
             J.append(dict(side="local", k=k, local=dict(c, k=k)))
+    J.append(dict(side="history", k=2))
+    J.append(dict(side="history", k=3))
     J.append(dict(side="valid", k=1, free=list(range(4)), base=[0] * 4, dtype="int"))
     J.append(dict(side="valid", k=1, free=list(range(4)), base=[0] * 4, dtype="bool"))
     for i, (base, free) in enumerate(gen.windows(2, tier)):
@@ -59,9 +61,40 @@ def kmer(v, k):
     return "".join("ACGT"[(v // 4 ** (k - 1 - i)) % 4] for i in range(k))
 
 
+HISTORY = [dict(runs=1, gc=None, motifs=None), dict(runs=None, gc=[0.5, 0.5], motifs=None), dict(runs=None, gc=None, motifs=["AC"]), dict(runs=1, gc=None, motifs=["G"]),
+           dict(runs=None, gc=[0.0, 0.5], motifs=None), dict(runs=None, gc=None, motifs=["T"])]
+
+
+def body_history(e, L, cfg):
+    """short-lived filter objects one after the other (a new object may get the address of a dead one) and one filter object that is
+    re-configured between calls: every mask must mirror the filter that was passed in THIS call."""
+    k = cfg["k"]
+    N = 4 ** k
+    for i, c in enumerate(HISTORY):
+        f = L.LocalBioFilter(observed_length=k, max_homopolymer_runs=c["runs"], gc_range=c["gc"], undesired_motifs=c["motifs"])
+        exp = [bool(f.valid(kmer(v, k))) for v in range(N)]
+        try:
+            got = [bool(x) for x in L.find_vertices(k, f).tolist()]
+        except ValueError:
+            got = [False] * N
+        del f
+        if got != exp:
+            return {"status": "viol", "why": "call %d of the history: mask does not mirror the filter of this call" % i, "cex": {"kind": "find_history", "k": k}}
+    f = L.LocalBioFilter(observed_length=k, undesired_motifs=["A"])
+    m1 = [bool(x) for x in L.find_vertices(k, f).tolist()]
+    f.undesired_motifs = ["C"]
+    exp = [bool(f.valid(kmer(v, k))) for v in range(N)]
+    m2 = [bool(x) for x in L.find_vertices(k, f).tolist()]
+    if m2 != exp:
+        return {"status": "viol", "why": "re-configured filter object gets a stale mask", "cex": {"kind": "find_history", "k": k}}
+    return {"status": "ok", "sample": {"history": "%d short-lived filters + 1 re-configured filter" % len(HISTORY), "k": k}}
+
+
 def body(e, L, cfg):
     if cfg["side"] == "valid":
         return gen.body_valid(e, L, cfg)
+    if cfg["side"] == "history":
+        return body_history(e, L, cfg)
     k = cfg["k"]
     N = 4 ** k
     if cfg["side"] == "local":
